@@ -8,7 +8,7 @@ The overlay is a Verus source file in which code from /repo enters only through 
   //@stub A B C
         opaque `#[verifier::external_body] pub struct` for types the proof must not look into.
   //@fn <file> :: [impl HEADER ::] name            ... //@end
-  //@region <file> :: [impl HEADER ::] name :: from "<line prefix>" :: to "<line prefix>"|to-matching-brace   ... //@end
+  //@region <file> :: [impl HEADER ::] name :: seg "<line prefix>" .. "<line prefix>" | seg "<line prefix>" .. brace  (repeatable)   ... //@end
         the block holds the *annotated* text of the function (or statement region) as it was when the
         contract was written.  Lines starting with `/*@*/` are ghost insertions (requires / ensures /
         invariant / decreases / proof blocks / asserts / ghost lets / attributes); lines starting with
@@ -144,30 +144,40 @@ def slice_fn(repo, rel, path):
     return "\n".join(lines)
 
 
-def slice_region(repo, rel, path, frm, to):
+def slice_region(repo, rel, path, segs):
+    """segs: list of (from_prefix, to_prefix|None). Each segment runs from the unique line starting with
+    from_prefix to the first later line starting with to_prefix (inclusive), or — to_prefix None — to the
+    brace matching the first `{` at or after the start line.  Segments are concatenated in order; the
+    text between them is dropped (stated in evidence)."""
     fn_text = slice_fn(repo, rel, path)
     lines = fn_text.split("\n")
-    starts = [i for i, l in enumerate(lines) if l.strip().startswith(frm)]
-    if len(starts) != 1:
-        raise GenError("region start `%s` matches %d lines in %s" % (frm, len(starts), path))
-    s = starts[0]
-    if to is None:
-        # to matching brace of the first `{` at or after the start line
-        rest = "\n".join(lines[s:])
-        ct = rl.code_tokens(rest)
-        ob = rl.first_body_brace(ct, 0)
-        cb = rl.match_close(ct, ob)
-        region = rest[:ct[cb].end]
-    else:
-        ends = [i for i, l in enumerate(lines) if i >= s and l.strip().startswith(to)]
-        if not ends:
-            raise GenError("region end `%s` not found in %s" % (to, path))
-        region = "\n".join(lines[s:ends[0] + 1])
-    # dedent region to its first line
-    rl_lines = region.split("\n")
-    ind = len(rl_lines[0]) - len(rl_lines[0].lstrip())
-    rl_lines = [(l[ind:] if l[:ind].strip() == "" else l.lstrip()) for l in rl_lines]
-    return "\n".join(rl_lines)
+    out = []
+    last_end = -1
+    for frm, to in segs:
+        starts = [i for i, l in enumerate(lines) if l.strip().startswith(frm)]
+        if len(starts) != 1:
+            raise GenError("region start `%s` matches %d lines in %s" % (frm, len(starts), path))
+        s = starts[0]
+        if s <= last_end:
+            raise GenError("region segments out of order in %s" % path)
+        if to is None:
+            rest = "\n".join(lines[s:])
+            ct = rl.code_tokens(rest)
+            ob = rl.first_body_brace(ct, 0)
+            cb = rl.match_close(ct, ob)
+            seg = rest[:ct[cb].end].split("\n")
+            e = s + len(seg) - 1
+        else:
+            ends = [i for i, l in enumerate(lines) if i >= s and l.strip().startswith(to)]
+            if not ends:
+                raise GenError("region end `%s` not found in %s" % (to, path))
+            e = ends[0]
+            seg = lines[s:e + 1]
+        ind = len(seg[0]) - len(seg[0].lstrip())
+        seg = [(l[ind:] if l[:ind].strip() == "" else l.lstrip()) for l in seg]
+        out.extend(seg)
+        last_end = e
+    return "\n".join(out)
 
 
 def slice_type(repo, rel, kind, name, derive):
@@ -419,17 +429,15 @@ def generate(spec_path, repo, vacuity=False):
             body = s[len("//@region "):] if is_region else s[len("//@fn "):]
             parts = [p.strip() for p in body.split(" :: ")]
             rel = parts[0]
-            frm = to = None
+            segs = []
             pathparts = []
             for p in parts[1:]:
-                m = re.match(r'from "(.*)"$', p)
+                m = re.match(r'seg "(.*)" \.\. "(.*)"$', p)
                 if m:
-                    frm = m.group(1); continue
-                m = re.match(r'to "(.*)"$', p)
+                    segs.append((m.group(1), m.group(2))); continue
+                m = re.match(r'seg "(.*)" \.\. brace$', p)
                 if m:
-                    to = m.group(1); continue
-                if p == "to-matching-brace":
-                    continue
+                    segs.append((m.group(1), None)); continue
                 pathparts.append(p)
             path = " :: ".join(pathparts)
             j = i + 1
@@ -439,7 +447,7 @@ def generate(spec_path, repo, vacuity=False):
             if j >= len(tl):
                 raise GenError("unterminated block for %s" % path)
             if is_region:
-                raw = slice_region(repo, rel, path, frm, to)
+                raw = slice_region(repo, rel, path, segs)
                 cur = normalise(raw, is_fn=False)
             else:
                 raw = slice_fn(repo, rel, path)
